@@ -11,7 +11,7 @@ VERIF="$(cd "$(dirname "$0")/.." && pwd)"
 W="/var/tmp/mutant.$$"; mkdir -p "$W" "$OUT"; OUT="$(realpath "$OUT")"
 trap 'rm -rf "$W"' EXIT
 rsync -a /repo/ "$W/clean/" && rsync -a /repo/ "$W/mut/" || exit 2
-(cd "$W/mut" && { git apply "$PATCH" 2>/dev/null || git update-index -q --refresh && git apply --3way "$PATCH" >/dev/null 2>&1; }) || { echo "MUTANT: patch does not apply"; exit 2; }
+(cd "$W/mut" && { git apply "$PATCH" 2>/dev/null || { git update-index -q --refresh; git apply --3way "$PATCH" >/dev/null 2>&1; }; }) || { echo "MUTANT: patch does not apply"; exit 2; }
 DEST=$(head -1 "$DEMO" | sed -n 's,^// *copy to: *\([^ ]*\).*,\1,p'); DEST="${DEST%/}"
 [ -n "$DEST" ] || { echo "MUTANT: demo has no '// copy to:' line"; exit 2; }
 (cd "$W/mut" && go build ./... ) > "$OUT/build.log" 2>&1 || { echo "MUTANT: does not build"; exit 2; }
